@@ -58,7 +58,10 @@ class Run:
         self.level = level
         self.seed = int(os.environ.get("VERIF_SEED", "1") or "1")
         self.t0 = time.time()
-        self.build = os.path.join(ROOT, "build", "%s-%s" % (pid, tier))
+        # a run against a scratch copy (mutation run) gets a build directory and replay names of its own, so that several
+        # can run side by side with one another and with a run against /repo
+        self.scratch = "" if os.path.realpath(REPO) == "/repo" else "-" + hashlib.sha1(os.path.realpath(REPO).encode()).hexdigest()[:8]
+        self.build = os.path.join(ROOT, "build", "%s-%s%s" % (pid, tier, self.scratch))
         shutil.rmtree(self.build, ignore_errors=True)
         os.makedirs(self.build, exist_ok=True)
         os.makedirs(os.path.join(ROOT, "replays"), exist_ok=True)
@@ -494,7 +497,7 @@ def read_line(path, k):
 
 def save_replay(run, name, obj):
     name = re.sub(r"[^A-Za-z0-9_.-]+", "_", name)
-    p = os.path.join(ROOT, "replays", "%s-%s-%s.json" % (run.pid, run.tier, name))
+    p = os.path.join(ROOT, "replays", "%s-%s-%s%s.json" % (run.pid, run.tier, name, run.scratch))
     with open(p, "w") as f:
         json.dump(obj, f, indent=1, default=str)
     return p
